@@ -59,6 +59,29 @@ def start_stamp_attr(repo):
     return cands.pop()
 
 
+def _before(fn, loop):
+    """plain `name = expr` statements that precede `loop` in the blocks enclosing it (function body, try bodies ...)"""
+    out = []
+
+    def walk(stmts):
+        for st in stmts:
+            if st is loop:
+                return True
+            if isinstance(st, ast.Assign) and all(isinstance(t, ast.Name) for t in st.targets) and not any(isinstance(x, (ast.Await, ast.Yield)) for x in ast.walk(st)):
+                out.append(st)
+                continue
+            for fld in ("body", "orelse", "finalbody"):
+                sub = getattr(st, fld, None)
+                if isinstance(sub, list) and sub and isinstance(sub[0], ast.stmt) and any(x is loop for x in ast.walk(st)):
+                    mark = len(out)
+                    if walk(sub):
+                        return True
+                    del out[mark:]
+        return False
+    walk(fn.body)
+    return out
+
+
 def wait_loop_decisions(ctx, repo, d, hd):
     """R4 decision table: one pass of discover()'s wait loop is interpreted for all 16 valuations of
     (age < timeout, had enough time, some spa listed, requested spa found); it must go on waiting exactly
@@ -103,8 +126,16 @@ def wait_loop_decisions(ctx, repo, d, hd):
                             raise _Yielded()
                         return NotImplemented
                     interp.attr_hook, interp.call_hook = ahook, chook
+                    env0 = {"self": me, "__class__": d.cls, "__mod__": d.mod}
+                    # locals bound before the loop (a constant or a limit hoisted out of it): evaluated first, as far as they
+                    # are plain assignments that can be interpreted on the model object
+                    for st0 in _before(d.node, loop):
+                        try:
+                            interp.exec(st0, env0)
+                        except (PyRaise, Undecided, _Yielded):
+                            pass
                     try:
-                        interp.exec(loop, {"self": me, "__class__": d.cls, "__mod__": d.mod})
+                        interp.exec(loop, env0)
                         went_on = False
                     except _Yielded:
                         went_on = True
